@@ -132,6 +132,10 @@ def run(repo: Repo, rep: Report, tier: str) -> None:
     rep.check("self._maximum_associations = value" in srcm or "self._maximum_associations = " in srcm, "comparison", "ae.ApplicationEntity.maximum_associations", "setter stores the configured maximum", "the compared value must be the configured maximum", mod=ae, node=ms)
     mg = repo.func("ae", "ApplicationEntity.maximum_associations")
     rep.check(any(norm(r.value) == "self._maximum_associations" for r in walk_no_nested(mg) if isinstance(r, ast.Return)), "comparison", "ae.ApplicationEntity.maximum_associations", "getter returns the stored maximum", "the compared value must be the configured maximum", mod=ae, node=mg)
+    # ---- state is per instance -------------------------------------------------------------------
+    from ..lints import per_instance_state
+    rep.rule("per-instance-state", "mutable state of the protocol objects is created per instance, never as a class attribute")
+    per_instance_state(repo, rep, "per-instance-state", {"ae": ("ApplicationEntity",), "association": ("Association",)})
 
 
 def _ifs(node):
